@@ -31,7 +31,7 @@ func init() {
 		Technique: "must-facts at the notification/transfer sites (caller, amount bounds, checked results), canonical arithmetic terms of the shares, loop-shape of the per-node transfers",
 		Explanation: "D1 neofs.OnNEP17Payment notifies Deposit only under caller = GAS ∧ 0 < amount ≤ 9000·10^8 with receiver ∈ {20-byte data, sender}. D2 Withdraw: W(user), 0 ≤ amount ≤ 9000, exactly one fee transfer to the stored Processing address with Notary or one per stored Alphabet key without, amount = configured WithdrawFee, every transfer result checked, notified amount = amount·10^8. " +
 			"D3 Cheque pays exactly gas.Transfer(self → user, amount) once, result checked, and notifies the same terms. D4 InnerRingCandidateAdd charges the configured fee from the standard account of the witnessed key to the contract with the marker OnNEP17Payment ignores. " +
-			"D5 alphabet.Emit: proxy share = g/2, node share = (g − g/2)·7/8/len(InnerRing) with the same list that is iterated, one transfer per element, loop-invariant amount. D6 OnNEP17Payment of Proxy/Processing (GAS) and Alphabet (GAS ∨ NEO) cannot return normally otherwise. D7 Cheque runs the vote-protocol rules of C17 itself (paid once: the ballot of the same id is removed before the payout). M: the deposit callback aborts only for the documented reasons and reports every accepted payment but the marker one; Withdraw faults only without W(user), outside [0, 9000] or after a failed fee transfer; a candidate is charged and stored exactly when not stored yet; the Emit loop is gone round only for a zero share. R6: no abort of the deposit callback is reachable with the candidate-fee marker as data (the fee is a setting, the deposit limits do not apply to it). R7: the documented gate of alphabet.Emit (the gate rule of C03) is decided here as well. R8: the documented gate of Cheque (Alphabet multisignature with Notary; gate rule shared with C03) is decided here as well. R9: a payment made by the accepted native token is never refused by Proxy/Processing/Alphabet (no abort is satisfiable with that caller). R11: decode-absent for the ballot list read by Cheque (shared with C17).",
+			"D5 alphabet.Emit: proxy share = g/2, node share = (g − g/2)·7/8/len(InnerRing) with the same list that is iterated, one transfer per element, loop-invariant amount. D6 OnNEP17Payment of Proxy/Processing (GAS) and Alphabet (GAS ∨ NEO) cannot return normally otherwise. D7 Cheque runs the vote-protocol rules of C17 itself (paid once: the ballot of the same id is removed before the payout). M: the deposit callback aborts only for the documented reasons and reports every accepted payment but the marker one; Withdraw faults only without W(user), outside [0, 9000] or after a failed fee transfer; a candidate is charged and stored exactly when not stored yet; the Emit loop is gone round only for a zero share. R6: no abort of the deposit callback is reachable with the candidate-fee marker as data (the fee is a setting, the deposit limits do not apply to it). R7: the documented gate of alphabet.Emit (the gate rule of C03) is decided here as well. R8: the documented gate of Cheque (Alphabet multisignature with Notary; gate rule shared with C03) is decided here as well. R9: a payment made by the accepted native token is never refused by Proxy/Processing/Alphabet (no abort is satisfiable with that caller). R11: decode-absent for the ballot list read by Cheque (shared with C17). S3: the vote protocol of all four voting methods (they share one ballot list: RemoveVotes is handed the id the method voted with).",
 		NotCovered: "the GAS balance identity over histories; behaviour of the native contracts.",
 		Run:        runC19,
 	})
